@@ -879,6 +879,61 @@ impl<W: Write + io::Seek> ZipWriter<W> {
     }
 }
 
+/// Verification hook (cfg `zip_rs_zip_verif` only): read-only snapshot of the writer's
+/// mode machine, used by the external model checker to fingerprint states.
+#[cfg(zip_rs_zip_verif)]
+#[derive(Debug, Clone, PartialEq, Eq, Hash)]
+pub struct VerifWriterState {
+    /// `writing_to_file`
+    pub writing_to_file: bool,
+    /// `writing_to_extra_field`
+    pub writing_to_extra_field: bool,
+    /// `writing_to_central_extra_field_only`
+    pub writing_to_central_extra_field_only: bool,
+    /// `writing_raw`
+    pub writing_raw: bool,
+    /// kind of the inner writer: closed / storer / storer-encrypted / deflater / bzip2 / zstd
+    pub inner: &'static str,
+    /// number of recorded entries
+    pub files: usize,
+    /// `stats.start`
+    pub stats_start: u64,
+    /// `stats.bytes_written`
+    pub bytes_written: u64,
+}
+
+#[cfg(zip_rs_zip_verif)]
+impl<W: Write + io::Seek> ZipWriter<W> {
+    /// Verification hook: snapshot of the mode machine. Does not change any state.
+    pub fn verif_state(&self) -> VerifWriterState {
+        let inner = match self.inner {
+            GenericZipWriter::Closed => "closed",
+            GenericZipWriter::Storer(MaybeEncrypted::Unencrypted(_)) => "storer",
+            GenericZipWriter::Storer(MaybeEncrypted::Encrypted(_)) => "storer-encrypted",
+            #[cfg(any(
+                feature = "deflate",
+                feature = "deflate-miniz",
+                feature = "deflate-zlib"
+            ))]
+            GenericZipWriter::Deflater(_) => "deflater",
+            #[cfg(feature = "bzip2")]
+            GenericZipWriter::Bzip2(_) => "bzip2",
+            #[cfg(feature = "zstd")]
+            GenericZipWriter::Zstd(_) => "zstd",
+        };
+        VerifWriterState {
+            writing_to_file: self.writing_to_file,
+            writing_to_extra_field: self.writing_to_extra_field,
+            writing_to_central_extra_field_only: self.writing_to_central_extra_field_only,
+            writing_raw: self.writing_raw,
+            inner,
+            files: self.files.len(),
+            stats_start: self.stats.start,
+            bytes_written: self.stats.bytes_written,
+        }
+    }
+}
+
 impl<W: Write + io::Seek> Drop for ZipWriter<W> {
     fn drop(&mut self) {
         if !self.inner.is_closed() {
